@@ -581,17 +581,17 @@ Lemma read_cl_ok c : cfg_ok c -> forall k index s lengths, inv c s -> 0 <= index
   lens_ok lengths -> rl_post c s (read_cl k index c s lengths).
 Proof.
   intros Hc. induction k as [|k IH]; intros index s lengths Hi Hidx Hk Hl.
-  - cbn [read_cl rl_post]. repeat split; auto; try lia; apply Hl.
+  - cbn [read_cl rl_post]. split; [exact Hi|split; [lia|exact Hl]].
   - cbn [read_cl]. pose proof (bits_ok c s 3 Hc Hi ltac:(lia)) as Hb. unfold bits_post in Hb.
     destruct (bits c s 3) as [[v s1]| | |]; cbn [bind rl_post]; auto; [|lia].
     destruct Hb as (Hi1 & Hv & Hm1 & _). change (2 ^ 3) with 8 in Hv.
     rewrite (rd_ok order) by (change (len order) with 19; lia). cbn [bind].
     pose proof (order_range index ltac:(lia)) as Ho.
     rewrite wr_ok by (destruct Hl as [Hl _]; lia). cbn [bind].
-    specialize (IH (index + 1) s1 (upd lengths (nth (Z.to_nat index) order 0) v) Hi1 ltac:(lia) ltac:(lia)
-                   (lens_ok_upd _ _ _ Hl ltac:(lia) ltac:(lia))).
+    assert (Hl1 : lens_ok (upd lengths (nth (Z.to_nat index) order 0) v)) by (apply lens_ok_upd; [exact Hl|lia|lia]).
+    specialize (IH (index + 1) s1 (upd lengths (nth (Z.to_nat index) order 0) v) Hi1 ltac:(lia) ltac:(lia) Hl1).
     unfold rl_post in *. destruct (read_cl k (index + 1) c s1 _) as [[s2 l2]| | |]; auto.
-    destruct IH as (A & B' & C). repeat split; auto; try lia; apply C.
+    destruct IH as (A & B' & C). split; [exact A|split; [lia|exact C]].
 Qed.
 
 Lemma zero_cl_ok : forall k index lengths, 0 <= index -> index + Z.of_nat k <= 19 -> lens_ok lengths ->
@@ -650,14 +650,15 @@ Proof.
         pose proof (bits_ok c s1 2 Hc Hi1 ltac:(lia)) as Hb. unfold bits_post in Hb.
         destruct (bits c s1 2) as [[v s2]| | |]; cbn [bind]; auto; [|lia].
         destruct Hb as (Hi2 & Hv & Hm2 & _). change (2 ^ 2) with 4 in Hv.
-        repeat split; auto; try lia; apply (Forall_nth_Z lengths (index - 1) (proj2 Hl)); destruct Hl as [Hl _]; lia.
+        split; [exact Hi2|split; [lia|split; [|lia]]].
+        apply (Forall_nth_Z lengths (index - 1) (proj2 Hl)); destruct Hl as [Hl _]; lia.
       * destruct (Z.eqb_spec symbol 17).
         -- pose proof (bits_ok c s1 3 Hc Hi1 ltac:(lia)) as Hb. unfold bits_post in Hb.
            destruct (bits c s1 3) as [[v s2]| | |]; cbn [bind]; auto; [|lia].
-           destruct Hb as (Hi2 & Hv & Hm2 & _). change (2 ^ 3) with 8 in Hv. repeat split; auto; lia.
+           destruct Hb as (Hi2 & Hv & Hm2 & _). change (2 ^ 3) with 8 in Hv. split; [exact Hi2|lia].
         -- pose proof (bits_ok c s1 7 Hc Hi1 ltac:(lia)) as Hb. unfold bits_post in Hb.
            destruct (bits c s1 7) as [[v s2]| | |]; cbn [bind]; auto; [|lia].
-           destruct Hb as (Hi2 & Hv & Hm2 & _). change (2 ^ 7) with 128 in Hv. repeat split; auto; lia.
+           destruct Hb as (Hi2 & Hv & Hm2 & _). change (2 ^ 7) with 128 in Hv. split; [exact Hi2|lia].
 Qed.
 
 Opaque read_cl zero_cl read_lengths.
@@ -678,8 +679,8 @@ Proof.
   destruct (bits c s2 4) as [[v3 s3]| | |]; cbn [bind step_post]; auto; [|lia].
   destruct Hb3 as (Hi3 & Hv3 & Hm3 & _). change (2 ^ 4) with 16 in Hv3.
   unfold MAXLCODES, MAXDCODES.
-  destruct (Z.ltb_spec 286 (v1 + 257)); cbn [orb]; [lia|].
-  destruct (Z.ltb_spec 30 (v2 + 1)); [lia|].
+  destruct (Z.ltb_spec 286 (v1 + 257)); cbn [orb]; [cbn [step_post]; lia|].
+  destruct (Z.ltb_spec 30 (v2 + 1)); [cbn [step_post]; lia|].
   set (nlen := v1 + 257) in *. set (ndist := v2 + 1) in *. set (ncode := v3 + 4) in *.
   assert (Hl0 : lens_ok (repeat 0 316)) by (split; [reflexivity|apply Forall_repeat; lia]).
   pose proof (read_cl_ok c Hc (Z.to_nat ncode) 0 s3 (repeat 0 316) Hi3 ltac:(lia) ltac:(lia) Hl0) as Hr1. unfold rl_post in Hr1.
@@ -691,26 +692,26 @@ Proof.
               (mkH (repeat 0 16) (repeat 0 286)) 286) as (err1 & h1 & E6 & Hh1 & Hs1 & _); try (cbn; lia).
   { cbn [h_symbol]. apply Forall_repeat. lia. }
   rewrite E6. cbn [bind].
-  destruct (err1 =? 0); cbn [negb]; [|lia].
+  destruct (err1 =? 0); cbn [negb]; [|cbn [step_post]; lia].
   pose proof (read_lengths_ok c h1 s4 Hc Hh1 320 s4 l5 0 nlen ndist Hi4 ltac:(lia) Hl5 ltac:(lia) ltac:(lia) ltac:(cbn; lia)) as Hr2.
   unfold rl_post in Hr2.
   destruct (read_lengths 320 c h1 s4 l5 0 nlen ndist) as [[s6 l6]| | |]; cbn [bind]; auto.
   destruct Hr2 as (Hi6 & Hm6 & Hl6).
   rewrite rd_ok by (destruct Hl6; lia). cbn [bind].
-  destruct (nth (Z.to_nat 256) l6 0 =? 0); [lia|].
+  destruct (nth (Z.to_nat 256) l6 0 =? 0); [cbn [step_post]; lia|].
   cbn [h_symbol] in Hs1.
   destruct (construct_ok l6 0 nlen ltac:(lia) ltac:(lia) ltac:(destruct Hl6; lia) (lens_at_range l6 0 nlen Hl6)
               h1 286) as (err2 & h2 & E7 & Hh2 & Hs2 & _); try lia.
   { apply Hh1. } { rewrite Hs1. rewrite len_repeat. lia. } { apply Hh1. }
   rewrite E7. cbn [bind].
   rewrite !rd_ok by (destruct Hh2 as (Hl2 & _); lia). cbn [bind].
-  match goal with |- context [if ?X then Err (-7) else _] => destruct X end; [lia|].
+  match goal with |- context [if ?X then Err (-7) else _] => destruct X end; [cbn [step_post]; lia|].
   destruct (construct_ok l6 nlen ndist ltac:(lia) ltac:(lia) ltac:(destruct Hl6; lia) (lens_at_range l6 nlen ndist Hl6)
               (mkH (repeat 0 16) (repeat 0 30)) 30) as (err3 & h3 & E8 & Hh3 & _); try (cbn; lia).
   { cbn [h_symbol]. apply Forall_repeat. lia. }
   rewrite E8. cbn [bind].
   rewrite !rd_ok by (destruct Hh3 as (Hl3 & _); lia). cbn [bind].
-  match goal with |- context [if ?X then Err (-8) else _] => destruct X end; [lia|].
+  match goal with |- context [if ?X then Err (-8) else _] => destruct X end; [cbn [step_post]; lia|].
   pose proof (codes_ok c h2 h3 286 s6 Hc Hh2 Hh3 Hi6) as Hcd. unfold step_post in *.
   destruct (codes c h2 h3 s6) as [s7| | |]; auto. destruct Hcd as [Hi7 Hm7]. split; [exact Hi7|lia].
 Qed.
